@@ -786,6 +786,28 @@ fn main() {
                 writeln!(out, "ptype {:?} {}", t, t.name()).unwrap();
             }
         },
+        "errtexts" => {
+            // Display text of every error variant (compared across feature sets by C17)
+            let fields = [PurlField::PackageType, PurlField::Namespace, PurlField::Name, PurlField::Version, PurlField::Subpath];
+            let mut pes = vec![ParseError::UnsupportedUrlScheme, ParseError::InvalidPackageType, ParseError::InvalidQualifier, ParseError::InvalidEscape];
+            for f in fields {
+                pes.push(ParseError::MissingRequiredField(f));
+                writeln!(out, "field {} = {} / {}", fld(f), f, f.name()).unwrap();
+            }
+            for e in &pes {
+                writeln!(out, "parse {} = {}", perr(e), e).unwrap();
+            }
+            #[cfg(feature = "pt")]
+            {
+                let mut ks = vec![PackageError::UnsupportedType, PackageError::Parse(ParseError::InvalidEscape)];
+                for f in fields {
+                    ks.push(PackageError::MissingRequiredField(f));
+                }
+                for e in &ks {
+                    writeln!(out, "package {} = {}", pkerr(e), e).unwrap();
+                }
+            }
+        },
         "features" => {
             let mut f = vec![];
             if cfg!(feature = "pt") {
